@@ -119,6 +119,36 @@ def check(fb, ctx):
         cb = fb.bodies[k]
         ok = ok or (bool(cl) and any((c.rpath or "").endswith("serialized_size") for c in fb.calls(cb) if not c.indirect))
     ctx.check(ok, "SIZE", "biscuit_sealed_size announces the size of the sealed token", "SIZE|biscuit_sealed_size", "the announced size is not serialized_size() of the sealed token", f"{sb['file']}:{sb['line']}")
+    # ---- ERRKIND: the numeric kind reported to C names the error that happened - every arm of error_kind() maps a (nested) Rust
+    # error variant to the ErrorKind whose name contains that variant's name (Format(Signature(InvalidFormat)) -> FormatSignatureInvalidFormat,
+    # AlreadySealed -> AlreadySealed, Language(_) -> LanguageError): two arms swapped are two arms that break this
+    for ek_key, ek in list(fb.hir.items()):
+        if ek.get("crate") == "biscuit_capi" and ek["path"].startswith("biscuit_capi::error_kind"):
+            n_arms = 0
+            def innermost(p):
+                nm = None
+                while isinstance(p, dict):
+                    if p.get("k") in ("ref", "box", "deref"):
+                        p = p["pat"]; continue
+                    if p.get("k") in ("tstruct", "struct", "path"):
+                        nm = (hirq.res_path(p.get("res") or {}) or "").split("::")[-1]
+                        subs = [q for q in (p.get("pats") or []) if q.get("k") in ("tstruct", "struct", "path", "ref")]
+                        if len(subs) == 1:
+                            p = subs[0]; continue
+                    break
+                return nm
+            for m_ in find_all(ek["body"], lambda z: z.get("k") == "match" and "error::Token" in (z.get("sty") or "")):
+                for arm in m_["arms"]:
+                    src_ = innermost(arm["pat"])
+                    tgt_ = (hirq.ctor_name(strip(hirq.tail(arm["body"]))) or (strip(hirq.tail(arm["body"])).get("res", {}).get("path") if isinstance(strip(hirq.tail(arm["body"])), dict) else "") or "").split("::")[-1]
+                    if not src_ or not tgt_ or src_ == "_":
+                        continue
+                    n_arms += 1
+                    kinds_ = fb.variants("biscuit_capi::ErrorKind")
+                    # (a Rust error with no kind of its own - Base64 - is folded into another kind by design)
+                    ctx.check(src_ in tgt_ or not any(src_ in k_ for k_ in kinds_), "ERRKIND", f"error_kind: {src_} is reported as a kind that names it", f"ERRKIND|{src_}", f"error `{src_}` is reported to C as ErrorKind::{tgt_}: the caller is told another error than the one that happened", f"{ek['file']}:{arm.get('ln', m_['ln'])}")
+            if n_arms:
+                ctx.floor("arms of error_kind over biscuit_auth::error::Token", n_arms, 38)
     # ---- ERRCHAN
     ub = fb.body("biscuit_capi::update_last_error")
     cbs = [fb.bodies[k] for k in fb.closures_of(ub["key"])]
